@@ -226,6 +226,8 @@ func checkC04Positions(c *Ctx) {
 		"type-method":     "定义狗：\n\t其名 = 7\n\t如何§？\n\t\t输出 1\n\n令甲 =（新建狗）\n输出 以甲（§）\n",
 		"builtin-method":  "令甲 = 【1，2】\n输出 以甲（§）\n",
 		"input":           "输入§\n输出 1\n",
+		"import-item":     "导入《@JSON》的§\n输出 1\n",
+		"import-items":    "导入《@JSON》的解析JSON、§\n输出 1\n",
 		"thrown-type":     "抛出§：“x”！\n",
 		"handler-type":    "输出 1 / 0\n\n拦截§：\n\t输出 2\n",
 	}
@@ -253,15 +255,47 @@ func checkC04Positions(c *Ctx) {
 			reqs[i].Inputs = map[string]Val{k.id: Num(1)}
 		}
 	}
+	for i := range reqs {
+		if strings.HasPrefix(cases[i].pos, "import-item") {
+			reqs[i].Libs = true
+		}
+	}
+	// the target of an input-variable assignment is a name too
+	vbad := 0
+	for _, id := range append(append([]string{}, bad...), good...) {
+		for _, form := range []string{"§ = 5", "甲 = 1；§ = 2", "§设为【1，2】"} {
+			text := strings.ReplaceAll(form, "§", id)
+			isBad := false
+			for _, b := range bad {
+				if b == id {
+					isBad = true
+				}
+			}
+			cases = append(cases, cs{"varinput-target", id, text, isBad})
+			reqs = append(reqs, Req{Op: "varinput", Text: text, ParseBudget: 5000, EvalBudget: 5000})
+			vbad++
+		}
+	}
 	c.runBatches(reqs, 60, func(i int, req *Req, resp *Resp) {
 		c.Eval()
 		k := cases[i]
+		if k.pos == "varinput-target" {
+			c.Count("name_positions_checked", 1)
+			c.Nontrivial(fmt.Sprintf("position|%s|%s|%s", k.pos, k.id, resp.Kind))
+			if k.bad && resp.Kind != "error" {
+				c.Violation("positions:"+k.pos+":"+k.id, fmt.Sprintf("%q starts like a number but is not one, yet input-variable text %q was accepted: %s %s", k.id, k.src, resp.Kind, clip(resp.Outcome(), 120)), map[string]interface{}{"req": req})
+			}
+			if !k.bad && resp.Kind != "ok" {
+				c.Violation("positions-control:"+k.pos+":"+k.id, fmt.Sprintf("control: input-variable text %q must work, outcome %s %v", k.src, resp.Kind, resp.Err), map[string]interface{}{"req": req})
+			}
+			return
+		}
 		c.Count("name_positions_checked", 1)
 		c.Nontrivial(fmt.Sprintf("position|%s|%s|%s", k.pos, k.id, resp.Kind))
 		if k.bad && resp.Kind != "error" {
 			c.Violation("positions:"+k.pos+":"+k.id, fmt.Sprintf("%q starts like a number but is not one, yet it was accepted as a name (%s): outcome %s %s\nprogram:\n%s", k.id, k.pos, resp.Kind, resp.Outcome(), k.src), map[string]interface{}{"req": req})
 		}
-		if !k.bad && resp.Kind != "value" && k.pos != "thrown-type" && k.pos != "handler-type" && k.pos != "builtin-method" && k.pos != "assign" {
+		if !k.bad && resp.Kind != "value" && k.pos != "thrown-type" && k.pos != "handler-type" && k.pos != "builtin-method" && k.pos != "assign" && !strings.HasPrefix(k.pos, "import-item") {
 			c.Violation("positions-control:"+k.pos+":"+k.id, fmt.Sprintf("control: the proper name %q in position %s must work, outcome %s %v\nprogram:\n%s", k.id, k.pos, resp.Kind, resp.Err, k.src), map[string]interface{}{"req": req})
 		}
 	})
